@@ -106,11 +106,11 @@ theorem materialize_not_lazy {ρ : Type} (f : Fr ρ) : f.materialize.isLazy = fa
 
 /-- What a call does to the rows a frame holds, as a function of those rows alone: a fetch on a frame
 that is still lazy takes its rows out of the frame (the cursor *is* the row source), `append` adds a
-row to an eager frame, nothing else changes them. -/
+row (a lazy frame is materialised first), nothing else changes them. -/
 def rowsAfter {ρ : Type} (wasLazy : Bool) (rows : List ρ) : Op ρ → List ρ
   | .fetch (some k) => if wasLazy then rows.drop k else rows
   | .fetch none => if wasLazy then [] else rows
-  | .append r => if wasLazy then rows else rows ++ [r]
+  | .append r => rows ++ [r]
   | _ => rows
 
 theorem step_listRows (N : NextFacts) (names : List String) (f : Fr (List α)) (op : Op (List α)) :
